@@ -80,9 +80,11 @@ theorem withdraw_exact_and_min_bond (s s1 : St) (q q1 : Seq) (amt : Nat) (r : Ro
             · cases h0
             · split at h0
               · cases h0
-              · injection h0 with h0; injection h0 with e1 _; subst e1
-                show getBal (setBal s.bal q.addr (getBal s.bal q.addr + amt)) q.addr = _
-                exact getBal_setBal _ _ _
+              · split at h0
+                · cases h0
+                · injection h0 with h0; injection h0 with e1 _; subst e1
+                  show getBal (setBal s.bal q.addr (getBal s.bal q.addr + amt)) q.addr = _
+                  exact getBal_setBal _ _ _
           injection h with h; injection h with e1 e2; subst e1; subst e2
           have ht : (if q0.tokens = 0 then { q0 with bonded := false } else q0).tokens = q0.tokens := by split <;> rfl
           refine ⟨by rw [ht]; exact sp.2.2.1, hbal, sp.2.1, ?_, ?_⟩
